@@ -84,10 +84,47 @@ pub fn run<S: Sch>(cfg: &Cfg, shape: &LcShape, pert: Pert, negate: bool) -> Verd
         with_sym_rng(sym_rng, || PCOf::<S>::open_combinations(&w.ck, &lcs, &w.lps, &w.comms, &qs, &mut sp_p, &w.states, Some(rng)))
     });
     if pert == Pert::ExpectDegBoundErr {
-        return match opened {
-            Ok(Ok(_)) => Verdict::viol("degree-bound-dropped", "a combination mixing a degree-bounded polynomial with other terms was opened"),
-            Ok(Err(e)) => Verdict::check(errname(&e) == "EquationHasDegreeBounds", "wrong-error", format!("expected EquationHasDegreeBounds, got {}", errname(&e))),
-            Err(p) => Verdict::viol("degree-bound-mix-panic", p),
+        match opened {
+            Ok(Ok(_)) => return Verdict::viol("degree-bound-dropped", "a combination mixing a degree-bounded polynomial with other terms was opened"),
+            Ok(Err(e)) => {
+                if errname(&e) != "EquationHasDegreeBounds" {
+                    return Verdict::viol("wrong-error", format!("expected EquationHasDegreeBounds, got {}", errname(&e)));
+                }
+            }
+            Err(p) => return Verdict::viol("degree-bound-mix-panic", p),
+        }
+        // verifier side: the same polynomials committed *without* bounds (same keys), the combination opened
+        // honestly there, and the proof presented with the commitments labelled with the bounds again: the
+        // verifier must not accept an equation whose degree bound it cannot enforce
+        let mut cfg2 = cfg.clone();
+        cfg2.enforced = Some(cfg.enforced.clone().unwrap_or_else(|| cfg.polys.iter().filter_map(|p| p.bound).collect()));
+        for p in cfg2.polys.iter_mut() {
+            p.bound = None;
+        }
+        let mut w2 = match catch(|| build::<S>(&cfg2)) {
+            Ok(Ok(w)) => w,
+            _ => return Verdict::Discard("honest phase failed".into()),
+        };
+        let mut ev2: Evaluations<PointOf<S>, SF> = Evaluations::new();
+        let mut qs2: QuerySet<PointOf<S>> = QuerySet::new();
+        for (li, zi) in &shape.queries {
+            qs2.insert((format!("lc{}", li), (w2.points[*zi].0.clone(), w2.points[*zi].1.clone())));
+            ev2.insert((format!("lc{}", li), w2.points[*zi].1.clone()), lc_val(&lcs[*li], &w2, &w2.points[*zi].1));
+        }
+        let (mut sp_p2, mut sp_v2) = (sp0.clone(), sp0.clone());
+        let proof2 = match catch(|| {
+            let rng = &mut w2.rng;
+            with_sym_rng(sym_rng, || PCOf::<S>::open_combinations(&w2.ck, &lcs, &w2.lps, &w2.comms, &qs2, &mut sp_p2, &w2.states, Some(rng)))
+        }) {
+            Ok(Ok(p)) => p,
+            _ => return Verdict::Discard("the unbounded combination could not be opened".into()),
+        };
+        let relabelled: Vec<LabeledCommitment<CommOf<S>>> = w2.comms.iter().enumerate().map(|(i, c)| LabeledCommitment::new(c.label().clone(), c.commitment().clone(), cfg.polys[i].bound)).collect();
+        let mut vrng = StdRng::seed_from_u64(cfg.seed + 100);
+        let res = catch(|| PCOf::<S>::check_combinations(&w2.vk, &lcs, relabelled.iter(), &qs2, &ev2, &proof2, &mut sp_v2, &mut vrng));
+        return match res {
+            Ok(Ok(true)) => Verdict::viol("degree-bound-dropped-by-verifier", "check_combinations accepted an equation that mixes a commitment labelled with a degree bound with other terms"),
+            _ => Verdict::Hold,
         };
     }
     let mut proof = match opened {
